@@ -7,7 +7,7 @@ request : sbom <stream> <format> <n> { <pkg> }            (19 tokens per package
   raw  = hex of PackageURL.String();  norm = hex of FromString(raw).String(), or `!` when FromString fails
   (raw/norm/normName/normVersion are the per-case table of the purl library, a parameter of the model;
    for hasPurl=0 the ten purl tokens are `-`).
-  format ∈ spdx23-json | spdx23-yaml | spdx23-tag-value | cdx-json | cdx-xml, optionally followed by `~f1+f2…` (formats the same
+  format ∈ spdx23-json | spdx23-yaml | spdx23-tag-value | cdx-json | cdx-xml, optionally followed by `@<output path state>[,cli]` (ignored) and `~f1+f2…` (formats the same
   ScanResult value was exported to before; ignored here: `toSpdx` / `toCdx` are functions of the inventory and leave it as it is)
 reply   : purls=<sorted comma-joined hex of the imported purls' String(), or -> extra=<returned packages without purl>
           st=<ok|read-err|unsupported> spec=<the same list computed by the Spec definition> wf=<0|1> lost=<n>
@@ -119,7 +119,7 @@ def handle (line : String) : String :=
   | "sbom" :: _stream :: ftok :: n :: rest =>
     -- `<format>~<earlier exports of the same scan result>`: the model's exports are pure functions of the inventory, so what was
     -- exported before cannot matter; the specification is the same for every position in the sequence
-    let fmt := (ftok.splitOn "~").headD ftok
+    let fmt := (((ftok.splitOn "~").headD ftok).splitOn "@").headD ftok   -- `@<state of the output path>[,cli]` is about the writer, not the document
     match n.toNat? with
     | none => "bad-op"
     | some n =>
